@@ -102,7 +102,8 @@ def run(rec, tier, seed):
     rnd = random.Random(seed)
     nmax = 5 if tier == 'quick' else 6
     variants = [dict(terms=True, coeffs=True, extra=True, cell='ortho'), dict(terms=True, coeffs=False, extra=False, cell='tri'),
-                dict(terms=False, coeffs=True, extra=True, cell=None), dict(terms=True, coeffs=True, extra=True, cell='ortho', dup=True)]
+                dict(terms=False, coeffs=True, extra=True, cell=None), dict(terms=True, coeffs=True, extra=True, cell='ortho', dup=True),
+                dict(terms=True, coeffs=True, extra=False, cell='ortho', sparse_bonds=True)]      # atoms above every bonded atom still occur in angles / torsions
     # every present / absent mixture of the four term kinds
     import itertools as _it
     allk = ['bond', 'angle', 'dihedral', 'improper']
